@@ -72,9 +72,100 @@ type c37Plan struct {
 	Seed  uint64    `json:"seed"`
 }
 
-var c37Hosts = []string{"127.0.0.1", "localhost", "0.0.0.0", "", "::1", "10.0.0.1"}
+var c37Hosts = []string{"127.0.0.1", "localhost", "0.0.0.0", "", "::1", "10.0.0.1", "Gateway.Example", "gateway.example"}
 var c37Ports = []int{0, 22, 80, 8080, 65535}
-var c37Paths = []string{"/tmp/s1", "/tmp/s2", "127.0.0.1:80", "a", "localhost:22"}
+var c37Paths = []string{"/tmp/s1", "/tmp/s2", "127.0.0.1:80", "a", "localhost:22", "/tmp/x/App.sock", "/tmp/x/app.sock"}
+
+// c37NearKinds are the near-miss derivations of a registered address: every
+// one of them must be refused unless it is byte for byte a registered address.
+var c37NearKinds = []string{"case", "case", "trailingdot", "leadspace", "trailspace", "port+1", "port-1", "alias", "v4mapped", "bracket", "dotslash", "doubleslash", "trailslash", "prefix", "suffix", "upper", "port0pad"}
+
+func c37SwapCase(s string) string {
+	b := []byte(s)
+	for i, c := range b {
+		switch {
+		case c >= 'a' && c <= 'z':
+			b[i] = c - 32
+		case c >= 'A' && c <= 'Z':
+			b[i] = c + 32
+		}
+	}
+	return string(b)
+}
+
+// c37Near derives a near-miss of (host, port) resp. of a socket path.
+func c37Near(kind, network, host string, port uint32) (string, uint32) {
+	switch kind {
+	case "case":
+		return c37SwapCase(host), port
+	case "upper":
+		return strings.ToUpper(host), port
+	case "trailingdot":
+		return host + ".", port
+	case "leadspace":
+		return " " + host, port
+	case "trailspace":
+		return host + " ", port
+	case "port+1":
+		if network == "unix" {
+			return host + "1", port
+		}
+		return host, port + 1
+	case "port-1":
+		if network == "unix" {
+			if len(host) > 1 {
+				return host[:len(host)-1], port
+			}
+			return host + "0", port
+		}
+		return host, port - 1
+	case "alias":
+		switch host {
+		case "localhost":
+			return "127.0.0.1", port
+		case "127.0.0.1":
+			return "localhost", port
+		case "::1":
+			return "127.0.0.1", port
+		case "0.0.0.0", "":
+			return "::", port
+		}
+		return "localhost", port
+	case "v4mapped":
+		if ip := net.ParseIP(host); ip != nil && ip.To4() != nil {
+			return "::ffff:" + host, port
+		}
+		return "::ffff:127.0.0.1", port
+	case "bracket":
+		return "[" + host + "]", port
+	case "dotslash":
+		return "./" + host, port
+	case "doubleslash":
+		if i := strings.LastIndex(host, "/"); i >= 0 {
+			return host[:i] + "/" + host[i:], port
+		}
+		return "//" + host, port
+	case "trailslash":
+		return host + "/", port
+	case "prefix":
+		if len(host) > 1 {
+			return host[:len(host)-1], port
+		}
+		return host + "x", port
+	case "suffix":
+		if len(host) > 1 {
+			return host[1:], port
+		}
+		return "x" + host, port
+	case "port0pad":
+		// only expressible on the unix side, where a host:port text is just a path
+		if h, ps, err := net.SplitHostPort(host); err == nil {
+			return h + ":0" + ps, port
+		}
+		return host + "0", port
+	}
+	return host, port
+}
 
 func c37IsIP(h string) bool { return net.ParseIP(h) != nil }
 
@@ -112,6 +203,9 @@ func genC37Plan(t *rapid.T) *c37Plan {
 				// a second listener for the identical address (possibly through another entry point)
 				o := ls[rapid.IntRange(0, len(ls)-1).Draw(t, "dupof")]
 				st.Host, st.Port = o.host, o.port
+				if pick(t, "dupcase", 3) == 0 {
+					st.Host = c37SwapCase(o.host) // a listener pair whose addresses differ in letter case only
+				}
 				if o.net == "unix" {
 					st.Via = rapid.SampledFrom([]string{"unix", "listenunix"}).Draw(t, "viaU2")
 				} else {
@@ -162,6 +256,9 @@ func genC37Plan(t *rapid.T) *c37Plan {
 							st.Net, st.Addr, st.APort = "tcp", h, uint32(pn)
 						}
 					}
+				case 4, 5, 6:
+					// a near-miss derived from the registered address (resolved when the step runs)
+					st.Why = "near:" + c37NearKinds[pick(t, "near", len(c37NearKinds))]
 				case 3:
 					st.Why = "unregistered"
 					st.Addr, st.APort = "203.0.113.7", 4444
@@ -858,7 +955,16 @@ func runC37(p *c37Plan, f4Listed bool) (string, c37Stats, error) {
 				// the generator does not know allocated ports or canonical IP texts: resolve against the listener
 				l := r.ls[st.L]
 				base := strings.TrimSuffix(st.Why, "+badorigin")
-				if l.network == "tcp" && network == "tcp" {
+				if strings.HasPrefix(base, "near:") && l.network == network {
+					if network == "tcp" {
+						if lh, ps, err := net.SplitHostPort(l.key); err == nil {
+							pn, _ := strconv.Atoi(ps)
+							host, port = c37Near(base[5:], "tcp", lh, uint32(pn))
+						}
+					} else {
+						host, _ = c37Near(base[5:], "unix", l.key, 0)
+					}
+				} else if l.network == "tcp" && network == "tcp" {
 					if lh, ps, err := net.SplitHostPort(l.key); err == nil {
 						pn, _ := strconv.Atoi(ps)
 						switch base {
